@@ -43,6 +43,8 @@ pub trait It64 {
     fn next_back(&mut self) -> Option<u64>;
     fn advance_to(&mut self, n: u64);
     fn advance_back_to(&mut self, n: u64);
+    fn nth(&mut self, n: usize) -> Option<u64>;
+    fn nth_back(&mut self, n: usize) -> Option<u64>;
     fn size_hint(&self) -> (usize, Option<usize>);
     /// `false` for `treemap::IntoIter`, which has no `advance_to` / `advance_back_to`
     fn has_advance(&self) -> bool {
